@@ -33,6 +33,8 @@ class C20(Prop):
             for _ in range(r.range(0, 5)):
                 t = r.choice(G.TEST_NAMES)
                 k = r.below(6)
+                if k in (3, 4) and r.chance(1, 3):
+                    t = r.choice(G.PCT_NAMES + G.PCT_STANDALONE)     # sub-tests named "100%", "x%dy": an outcome like any other
                 if k == 0:
                     extra.append({"op": "match", "api": "snap", "h": 0, "test": hx(t), "novalues": True})
                 elif k == 1:
